@@ -1,6 +1,7 @@
 use crate::engine::{PropertyDef, Tier};
 pub mod c01;
 pub mod c02;
+pub mod c03;
 pub mod c04;
 pub mod c09;
 pub mod c10;
@@ -37,6 +38,7 @@ pub fn get(id: &str, tier: Tier) -> Option<PropertyDef> {
         "C17" => Some(c17::def(tier)),
         "C18" => Some(c18::def(tier)),
         "C02" => Some(c02::def(tier)),
+        "C03" => Some(c03::def(tier)),
         "C04" => Some(c04::def(tier)),
         "C05" => Some(lc::c05(tier)),
         "C06" => Some(lc::c06(tier)),
